@@ -43,6 +43,12 @@ FORBIDDEN = re.compile(
 PROPS = {
     "C07": dict(streams=["pkglen", "pkgblk"], exhaustive="all 2^28 lengths x both forms via the hook (block digests), in both tiers",
                 nontrivial="length > 0"),
+    "C08": dict(streams=["int", "intblk"], exhaustive="u8 and u16 through all five entry points (quick); u32 through u32/u64/usize (thorough), block digests",
+                nontrivial="value > 1"),
+    "C09": dict(streams=["path"], exhaustive="every segment count 1..257 rooted/unrooted; each of the 4 positions over its alphabet and over all ASCII bytes",
+                nontrivial="non-empty string"),
+    "C16": dict(streams=["eisa", "eisablk", "uuid"], exhaustive="each EISA/UUID position over its alphabet; all 26^3*16^4 ids in the thorough tier (block digests)",
+                nontrivial="non-empty string"),
     "C17": dict(streams=["cks"], exhaustive="all 256x256 (state, byte) pairs for add/sub/value",
                 nontrivial="at least one operation"),
 }
@@ -288,6 +294,8 @@ def nontrivial(stream, case_line):
     body = case_line.split(" ", 1)[1] if " " in case_line else ""
     if stream in ("pkglen", "pkgblk"):
         return not body.startswith("0 ")
+    if stream == "int":
+        return body.split(" ")[-1] not in ("0", "1")
     return len(body.strip()) > 0 and body.strip() != "-"
 
 
